@@ -30,8 +30,8 @@ type c35Scenario struct {
 	concurrency     int
 	extLabels       map[string]string
 	extLabelsLater  map[string]string // external labels after the first sync attempt (reconfiguration)
-	wipeMetaFile    bool // restart loses thanos.shipper.json
-	dropLocal       int  // index of a block removed locally after the first attempt (-1 none)
+	wipeMetaFile    bool              // restart loses thanos.shipper.json
+	dropLocal       int               // index of a block removed locally after the first attempt (-1 none)
 	srcDir          string
 	lexOrder        bool
 }
